@@ -360,7 +360,7 @@ func (f *fixture) eval(c *core.C, base *ksim.World, cs Case) (verdict, *outcome)
 	bookkeeping := map[string]bool{
 		"ibc/" + string(host.PacketAcknowledgementKey(pkt.DestinationPort, pkt.DestinationChannel, pkt.Sequence)): true,
 		"ibc/" + string(host.PacketReceiptKey(pkt.DestinationPort, pkt.DestinationChannel, pkt.Sequence)):         true,
-		"ibc/" + string(host.NextSequenceRecvKey(pkt.DestinationPort, pkt.DestinationChannel)):                     true,
+		"ibc/" + string(host.NextSequenceRecvKey(pkt.DestinationPort, pkt.DestinationChannel)):                    true,
 	}
 	var effectKeys []string
 	for _, k := range diff {
